@@ -124,7 +124,7 @@ def check_backends(inp):
 
 
 def sweep_backends(tier, seed):
-  shapes = [[], [0], [2], [2, 0, 1], [1, 1, 1, 1], [0, 0], [3, 1, 0, 2, 1]]
+  shapes = [[], [0], [2], [2, 0, 1], [1, 3, 2], [0, 2], [1, 1, 1, 1], [0, 0], [3, 1, 0, 2, 1]]
   for counts in shapes:
     yield dict(devices=DEV, counts=counts, nan_pad=True, seed=seed)
   devs = (1, 2, 8) if tier != 'thorough' else (1, 2, 4, 5, 6, 7, 8)
